@@ -130,34 +130,40 @@ def _ob_create_named(ni: int, ti: int) -> bool:
 # ---------------------------------------------------------------------------
 # create_data_array argument classes
 # ---------------------------------------------------------------------------
-def _ob_create_data_array(di: int, si: int, vi: int, ui: int) -> bool:
+UUIDLIKE = "0123456789abcdef0123456789abcdef"
+
+
+def _ob_create_data_array(di: int, si: int, vi: int, ui: int, ni: int) -> bool:
     """
-    pre: 0 <= di < 3 and 0 <= si < 3 and 0 <= vi < 4 and 0 <= ui < 2
+    pre: 0 <= di < 3 and 0 <= si < 3 and 0 <= vi < 4 and 0 <= ui < 2 and 0 <= ni < 3
     post: __return__
     """
     import numpy as np
     E = _fixture()
     blk = E["blk"]
+    # an ordinary name, a name that is the id text of an existing sibling, a name that looks like an id
+    name = _pick(["n", E["da"].id, UUIDLIKE], ni)
     dtype = _pick([None, np.float64, fakeh5.BAD_DTYPE], di)
     shape = _pick([None, (2,), (3,)], si)
     data = _pick([None, [1.0, 2.0], [[1.0], [2.0]], ["a", "b"]], vi)
     unit = _pick([None, 5], ui)
-    return _judge(E, lambda: blk.create_data_array("n", "t", dtype=dtype, shape=shape, data=data, unit=unit),
-                  lambda: blk.create_data_array("n", "t", data=[1.0, 2.0]))
+    return _judge(E, lambda: blk.create_data_array(name, "t", dtype=dtype, shape=shape, data=data, unit=unit),
+                  lambda: blk.create_data_array(name, "t", data=[1.0, 2.0]))
 
 
 # ---------------------------------------------------------------------------
 # create_tag / create_multi_tag / create_feature argument classes
 # ---------------------------------------------------------------------------
-def _ob_create_tag(pi: int) -> bool:
+def _ob_create_tag(pi: int, ni: int) -> bool:
     """
-    pre: 0 <= pi < 4
+    pre: 0 <= pi < 4 and 0 <= ni < 3
     post: __return__
     """
     E = _fixture()
     blk = E["blk"]
     pos = _pick([[1.0], 2.0, ["a"], "xy"], pi)
-    return _judge(E, lambda: blk.create_tag("n", "t", pos), lambda: blk.create_tag("n", "t", [1.0]))
+    name = _pick(["n", E["tag"].id, UUIDLIKE], ni)
+    return _judge(E, lambda: blk.create_tag(name, "t", pos), lambda: blk.create_tag(name, "t", [1.0]))
 
 
 def _ob_create_multi_tag(pi: int, ei: int, pre_pos: bool, pre_ext: bool) -> bool:
@@ -199,24 +205,27 @@ def _ob_create_feature(di: int, li: int) -> bool:
 # ---------------------------------------------------------------------------
 def _ob_create_property(ni: int, vi: int) -> bool:
     """
-    pre: 0 <= ni < 4 and 0 <= vi < 7
+    pre: 0 <= ni < 4 and 0 <= vi < 9
     post: __return__
     """
+    import numpy as np
     E = _fixture()
     sec = E["sec"]
     name = _name(ni, "p")
-    vals = _pick([[1, 2], [1, "a"], [], None, [1.5, 2], [True, 1], 3], vi)
+    # ... an integer that does not fit the stored type, a NumPy array of a type nixio does not store
+    vals = _pick([[1, 2], [1, "a"], [], None, [1.5, 2], [True, 1], 3, [1, 2 ** 70],
+                  np.array([1.0, 2.0], dtype=np.float32)], vi)
     return _judge(E, lambda: sec.create_property(name, vals), lambda: sec.create_property("valid", [1]))
 
 
 def _ob_property_values(oi: int, vi: int, wi: int) -> bool:
     """
-    pre: 0 <= oi < 2 and 0 <= vi < 6 and 0 <= wi < 2
+    pre: 0 <= oi < 2 and 0 <= vi < 8 and 0 <= wi < 2
     post: __return__
     """
     E = _fixture()
     prop = _pick([E["prop"], E["sprop"]], wi)
-    vals = _pick([[7], [1.5], ["a"], [1, "a"], [True], [1, 2.5]], vi)
+    vals = _pick([[7], [1.5], ["a"], [1, "a"], [True], [1, 2.5], [1, 2 ** 70], [2 ** 70]], vi)
     good = [7] if wi == 0 else ["y"]
     if oi == 0:
         return _judge(E, lambda: setattr(prop, "values", vals), lambda: setattr(prop, "values", good))
@@ -248,20 +257,22 @@ def _ob_append_dimension(ki: int, ai: int, bi: int) -> bool:
 
 def _ob_ticks_and_link(oi: int, ai: int) -> bool:
     """
-    pre: 0 <= oi < 4 and 0 <= ai < 5
+    pre: 0 <= oi < 4 and 0 <= ai < 7
     post: __return__
     """
     E = _fixture()
     rdim = E["da"].dimensions[0]
     sdim = E["da"].dimensions[1]
+    TICKS = [[3.0, 4.0], [4.0, 3.0], [1.0, 1.0, 0.5], ["a"], [5.0], [], [[1.0, 2.0], [3.0, 4.0]]]
     if oi == 3:
         # history: the range dimension takes its ticks from a linked array
         rdim.link_data_array(E["da"], [0, -1])
-        ticks = _pick([[3.0, 4.0], [4.0, 3.0], [1.0, 1.0, 0.5], ["a"], [5.0]], ai)
+        ticks = _pick(TICKS, ai)
         return _judge(E, lambda: setattr(rdim, "ticks", ticks), lambda: setattr(rdim, "ticks", [7.0, 8.0]))
     if oi == 0:
-        ticks = _pick([[3.0, 4.0], [4.0, 3.0], [1.0, 1.0, 0.5], ["a"], [5.0]], ai)
+        ticks = _pick(TICKS, ai)
         return _judge(E, lambda: setattr(rdim, "ticks", ticks), lambda: setattr(rdim, "ticks", [7.0, 8.0]))
+    assume(ai < 5)
     index = _pick([[0, -1], [-1], [-1, -1], [-2, -1], [0, 0]], ai)
     dim = rdim if oi == 1 else sdim
     return _judge(E, lambda: dim.link_data_array(E["da"], index), lambda: dim.link_data_array(E["da"], [0, -1]))
